@@ -388,3 +388,137 @@ pub fn serde(rng: &mut Rng, n: usize, sink: &mut Sink) {
     sink.oracle.distinct_nontrivial += evals;
     sink.oracle.samples.push(format!("serde_json of {} texts in 9 storage shapes vs String; Str/BorrowedStr/String/Bytes/BorrowedBytes deserializers; all byte strings of length <= {maxlen} over the UTF-8 class alphabet; Unstructured seeds vs <&str>::arbitrary (3 methods)", texts.len()));
 }
+
+// ------------------------------------------------------------------------------------------------------------------
+// C18 / C01: every `Extend` / `FromIterator` impl (items char, &char, &str, Box<str>, Cow<str>, String, LeanString, and
+// `Extend<LeanString> for String`) against `String`, on every storage shape of the target, with items that are short
+// (inline) and long (heap) and an iterator that panics at every position.  The scripted families run these impls only
+// with items that allocate nothing (the model does not see the items' own buffers); this sweep has no model, only std.
+// ------------------------------------------------------------------------------------------------------------------
+const IG_PANIC: &str = "verif-callback-panic";
+
+struct PanicIter<T> {
+    items: Vec<T>,
+    pos: usize,
+    panic_at: Option<usize>,
+}
+impl<T: Clone> Iterator for PanicIter<T> {
+    type Item = T;
+    fn next(&mut self) -> Option<T> {
+        if Some(self.pos) == self.panic_at {
+            panic!("{}", IG_PANIC);
+        }
+        let r = self.items.get(self.pos).cloned();
+        self.pos += 1;
+        r
+    }
+}
+
+fn caught<R>(f: impl FnOnce() -> R) -> Result<R, String> {
+    let prev = std::panic::take_hook();
+    std::panic::set_hook(Box::new(|_| {}));
+    let r = std::panic::catch_unwind(std::panic::AssertUnwindSafe(f));
+    std::panic::set_hook(prev);
+    r.map_err(|e| e.downcast_ref::<String>().cloned().or_else(|| e.downcast_ref::<&str>().map(|s| s.to_string())).unwrap_or_default())
+}
+
+pub fn iterglue(rng: &mut Rng, n: usize, sink: &mut Sink) {
+    let mut evals = 0u64;
+    let long1 = "a first item that is longer than sixteen bytes";
+    let long2 = "é€𝄞 second long item, multi-byte";
+    let mut item_lists: Vec<Vec<String>> = vec![
+        vec![], vec!["x".into()], vec![long1.into()], vec![long1.into(), "y".into()], vec!["y".into(), long1.into()],
+        vec![long1.into(), long2.into()], vec!["".into(), long1.into(), "".into()], vec!["0123456789abcdef".into(), "g".into()],
+        vec!["é".into(), "€".into(), "𝄞".into()],
+    ];
+    for _ in 0..n {
+        let k = 1 + rng.below(4);
+        item_lists.push((0..k).map(|_| gn::rand_text(rng)).collect());
+    }
+    let targets = ["", "t", "0123456789abcde", "0123456789abcdef", "a target text longer than sixteen bytes"];
+    let live0 = crate::shadow::with(|sh| sh.live_blocks());
+    for items in &item_lists {
+        let chars: Vec<char> = items.concat().chars().collect();
+        for tgt in targets {
+            let mut keep = vec![];
+            let shapes = representations(tgt, &mut keep);
+            for (shape, base) in shapes {
+                // panic positions: none, and before every `next()` up to one past the end
+                let strs_n = items.len();
+                for kind in 0..8usize {
+                    let upto = if kind <= 1 { chars.len().min(6) } else { strs_n };
+                    for pa in std::iter::once(None).chain((0..=upto).map(Some)) {
+                        evals += 1;
+                        let mut ls = base.clone();
+                        let mut or = String::from(tgt);
+                        let mut other = String::from(tgt); // kind 7: a `String` extended with LeanStrings
+                        let r1 = caught(|| match kind {
+                            0 => ls.extend(PanicIter { items: chars.clone(), pos: 0, panic_at: pa }),
+                            1 => {
+                                let refs: Vec<&char> = chars.iter().collect();
+                                ls.extend(PanicIter { items: refs, pos: 0, panic_at: pa })
+                            }
+                            2 => {
+                                let refs: Vec<&str> = items.iter().map(|s| s.as_str()).collect();
+                                ls.extend(PanicIter { items: refs, pos: 0, panic_at: pa })
+                            }
+                            3 => ls.extend(PanicIter { items: items.iter().map(|s| s.clone().into_boxed_str()).collect::<Vec<Box<str>>>(), pos: 0, panic_at: pa }),
+                            4 => ls.extend(PanicIter {
+                                items: items.iter().enumerate().map(|(k, s)| if k % 2 == 0 { Cow::Borrowed(s.as_str()) } else { Cow::Owned(s.clone()) }).collect::<Vec<Cow<'_, str>>>(),
+                                pos: 0, panic_at: pa }),
+                            5 => ls.extend(PanicIter { items: items.clone(), pos: 0, panic_at: pa }),
+                            6 => ls.extend(PanicIter { items: items.iter().map(|s| LeanString::from(s.as_str())).collect::<Vec<LeanString>>(), pos: 0, panic_at: pa }),
+                            _ => other.extend(PanicIter { items: items.iter().map(|s| LeanString::from(s.as_str())).collect::<Vec<LeanString>>(), pos: 0, panic_at: pa }),
+                        });
+                        let r2 = caught(|| if kind <= 1 {
+                            or.extend(PanicIter { items: chars.clone(), pos: 0, panic_at: pa })
+                        } else {
+                            or.extend(PanicIter { items: items.clone(), pos: 0, panic_at: pa })
+                        });
+                        let got = if kind == 7 { other.as_str() } else { ls.as_str() };
+                        let kn = ["char", "&char", "&str", "Box<str>", "Cow<str>", "String", "LeanString", "LeanString into String"][kind];
+                        if r1.is_ok() != r2.is_ok() {
+                            sink.fail(&["C18", "C01"], format!("extend with {kn} items {:?} (iterator panics at {:?}) on {shape} target {:?}: crate {:?}, String {:?}", items, pa, tgt, r1.as_ref().err(), r2.as_ref().err()));
+                        } else if got != or.as_str() {
+                            let p: &[&'static str] = if pa.is_some() { &["C18", "C01"] } else { &["C01"] };
+                            sink.fail(p, format!("extend with {kn} items {:?} (iterator panics at {:?}) on {shape} target {:?}: holds {:?}, String holds {:?}", items, pa, tgt, got, or));
+                        }
+                        if let Err(m) = &r1 {
+                            if m != IG_PANIC {
+                                sink.fail(&["C18"], format!("extend with {kn} items {:?} on {shape} target {:?} panicked with {:?}", items, tgt, m));
+                            }
+                        }
+                        // the same items through FromIterator (only once per item list: on the first target / shape)
+                        if tgt.is_empty() && shape == "from" && kind < 7 {
+                            evals += 1;
+                            let c1 = caught(|| -> LeanString { match kind {
+                                0 => PanicIter { items: chars.clone(), pos: 0, panic_at: pa }.collect(),
+                                1 => { let refs: Vec<&char> = chars.iter().collect(); PanicIter { items: refs, pos: 0, panic_at: pa }.collect() }
+                                2 => { let refs: Vec<&str> = items.iter().map(|s| s.as_str()).collect(); PanicIter { items: refs, pos: 0, panic_at: pa }.collect() }
+                                3 => PanicIter { items: items.iter().map(|s| s.clone().into_boxed_str()).collect::<Vec<Box<str>>>(), pos: 0, panic_at: pa }.collect(),
+                                4 => PanicIter { items: items.iter().map(|s| Cow::Owned::<str>(s.clone())).collect::<Vec<Cow<'_, str>>>(), pos: 0, panic_at: pa }.collect(),
+                                5 => PanicIter { items: items.clone(), pos: 0, panic_at: pa }.collect(),
+                                _ => PanicIter { items: items.iter().map(|s| LeanString::from(s.as_str())).collect::<Vec<LeanString>>(), pos: 0, panic_at: pa }.collect(),
+                            }});
+                            let want: String = if kind <= 1 { chars.iter().collect() } else { items.concat() };
+                            match (&c1, pa) {
+                                (Ok(v), None) if v.as_str() != want => sink.fail(&["C01"], format!("collect of {kn} items {:?}: {:?}, String gives {:?}", items, v.as_str(), want)),
+                                (Ok(v), Some(p)) if p <= upto => sink.fail(&["C18"], format!("collect of {kn} items {:?} with a panic at {p} returned {:?}", items, v.as_str())),
+                                _ => {}
+                            }
+                        }
+                    }
+                }
+            }
+            drop(keep);
+        }
+    }
+    // everything built above is gone: no block may be left behind (panics included)
+    let live1 = crate::shadow::with(|sh| sh.live_blocks());
+    if live1 != live0 {
+        sink.fail(&["C18", "C05", "C03"], format!("{} heap block(s) still allocated after the extend/collect sweep with panicking iterators (before: {live0}, after: {live1})", live1 as i64 - live0 as i64));
+    }
+    sink.oracle.evaluations += evals;
+    sink.oracle.distinct_nontrivial += evals;
+    sink.oracle.samples.push(format!("{} item lists (short and long items) x 5 targets x 9 storage shapes x 8 item types (char, &char, &str, Box<str>, Cow, String, LeanString, LeanString into String) x every panic position; extend and collect against String", item_lists.len()));
+}
